@@ -822,6 +822,7 @@ Proof.
     unfold treat_output in H.
     destruct (treat_results (core f) _) as [s1|] eqn:T; [|discriminate].
     destruct (treat_results_Inv _ _ _ _ _ _ I Hk G1 T) as (I1 & _).
+    destruct (credit s1 P 0 _ _) as [fr2|]; [|discriminate].
     destruct (if acc then _ else _) as [fr3 dt].
     unfold sort_trajstate in H.
     destruct (sort_loop _ s1 0) as [s2 n| |] eqn:S; try discriminate.
